@@ -61,11 +61,11 @@ func TestC17(t *testing.T) {
 }
 
 type decl struct {
-	Name    string
-	Q       bool
-	Inputs  []controller.Input
-	Outputs []controller.Output
-	Conc    int // -1 unset
+	Name     string
+	Q        bool
+	Inputs   []controller.Input
+	Outputs  []controller.Output
+	Conc     int // -1 unset
 	AfterRun bool
 }
 
@@ -318,10 +318,10 @@ func blackbox(c *vk.C, rng *rand.Rand, k int) {
 	runAt := rng.IntN(n + 1)
 
 	var (
-		trace    []string
-		names    []string
-		rejected int
-		accepted int
+		trace               []string
+		names               []string
+		rejected            int
+		accepted            int
 		acceptedAfterReject bool
 	)
 
@@ -573,7 +573,24 @@ func whitebox(c *vk.C, rng *rand.Rand, k int) {
 		c.Violation(sig, detail)
 	}
 
+	// answers handed out earlier stay what they were: event delivery iterates a dependents list after the database lock is
+	// released, so a list that changes under a later mutation sends notifications to the wrong (or to a non-existent) controller
+	type held struct {
+		at        int
+		got, copy []string
+	}
+
+	var answers []held
+
 	for step := 0; step < 30+rng.IntN(40); step++ {
+		for _, h := range answers {
+			if !slices.Equal(h.got, h.copy) {
+				fail("db-answer-changed-after-later-mutation", map[string]any{"answer_of_step": h.at, "was": h.copy, "now": h.got, "step": step})
+
+				return
+			}
+		}
+
 		name := ctrls[rng.IntN(len(ctrls))]
 		kd := rtp.Kinds[rng.IntN(len(rtp.Kinds))]
 		in := controller.Input{Namespace: kd.NS, Type: kd.Type, Kind: controller.InputKind(rng.IntN(6))}
@@ -669,6 +686,9 @@ func whitebox(c *vk.C, rng *rand.Rand, k int) {
 					}
 				}
 			}
+
+			answers = append(answers, held{at: step, got: got, copy: slices.Clone(got)})
+			c.Count("db_answers_held_across_mutations", 1)
 
 			gotSet := map[string]bool{}
 			for _, g := range got {
